@@ -768,7 +768,14 @@ func (p *Parser) doHeredocs() {
 			r.Hdoc = p.getWord()
 		}
 		if stop := p.hdocStops[len(p.hdocStops)-1]; stop != nil {
-			p.posErr(r.Pos(), "unclosed here-document %#q", stop)
+			// We can only get here by running out of input,
+			// so more input could always complete the document.
+			p.errPass(ParseError{
+				Filename:   p.f.Name,
+				Pos:        r.Pos(),
+				Text:       fmt.Sprintf("unclosed here-document %#q", stop),
+				Incomplete: true,
+			})
 		}
 		p.hdocStops = p.hdocStops[:len(p.hdocStops)-1]
 	}
